@@ -356,6 +356,50 @@ def o_exceptions(ctx):
                                 ite(Or(lt(900, n1 + n2), And(lt(400, n1), lt(400, n2))), 1, 0)))
 
 
+def mk_end_state(name, icode_twin=None, params=None):
+    """sign and bound audit of every determinant the whole pipeline finally
+    records (after iterations, coupling effects and the coupling probe), per
+    conformation; structure under a symbolic grid shift"""
+    def body(ctx):
+        from . import micro as M
+        txt = M.text(name)
+        if icode_twin:
+            # renumber one residue so that it shares its number with its neighbour and differs in insertion code only
+            src, dst = icode_twin
+            txt = ''.join((l[:22] + '%4d' % dst + 'A' + l[27:] + '\n') if (l.startswith('ATOM') and int(l[22:26]) == src) else (l + '\n')
+                          for l in txt.split('\n') if l)
+        k = ctx.int('shift_thousandths', 0, 2509)
+        t = k / 1000.0 if ctx.native else k / 1000
+
+        def tr(a):
+            a.y = a.y + t
+        mol = M.run(txt, transform=tr, params=params)
+        p = mol.version.parameters
+        for cname in mol.conformation_names:
+            conf = mol.conformations[cname]
+            charge_of = {}
+            for g in conf.groups:
+                charge_of.setdefault(g.label, set()).add(g.charge)
+            for g in conf.groups:
+                if not g.titratable:
+                    continue
+                q = g.charge
+                ctx.claim('desolvation-sign', ge(g.energy_volume * (-q), 0) if q else True, detail=g.label)
+                ctx.claim('buried-in-0-1', And(ge(g.buried, 0), le(g.buried, 1)))
+                for d in g.determinants['backbone']:
+                    ctx.claim('backbone-sign', ge(d.value * q, 0), detail='%s <- %s %r' % (g.label, d.label, d.value))
+                    ctx.claim('backbone-bound', And(le(d.value, 0.85), ge(d.value, -0.85)))
+                for d in g.determinants['coulomb']:
+                    qs = charge_of.get(d.label, set())
+                    if len(qs) == 1:
+                        pq = list(qs)[0]
+                        ctx.claim('coulomb-sign', le(d.value * pq, 0), detail='%s (q=%+g) <- %s (q=%+g): %r' % (g.label, q, d.label, pq, d.value))
+                        ctx.claim('coulomb-bound', And(le(d.value, COUL_MAX * abs(pq)), ge(d.value, -COUL_MAX * abs(pq))))
+                for d in g.determinants['sidechain']:
+                    ctx.claim('sidechain-bound', And(le(d.value, 3.6), ge(d.value, -3.6)), detail='%s <- %s %r' % (g.label, d.label, d.value))
+    return body
+
+
 def obligations(tier):
     E = 'propka/energy.py:'
     D = 'propka/determinants.py:'
@@ -402,6 +446,17 @@ def obligations(tier):
                               code=[E + 'radial_volume_desolvation', 'propka/calculations.py:squared_distance'],
                               bounds='3 environment atoms (C4, N, CA) with symbolic x in [-30,30], fixed small y,z offsets', max_paths=400,
                               claim_doc='sign of energy_volume, 0 <= buried <= 1', wall_s=120))
+    fx = [('pair_ASP_ARG', None), ('pair_ASP_ARG', (30, 29)), ('pair_GLU_ARG_TYR', None), ('pair_LYS_ASP', None)]
+    if tier == 'thorough':
+        fx += [('pep8', None), ('pep8', (30, 29)), ('pair_ASP_ASP', None), ('nterm_ASP_LYS', None), ('lig_MTX', None), ('pair_CYS_CYS_bridge', None)]
+    from .micro import BURIED
+    for name, twin in fx:
+      for params, ptag in ((None, ''), (BURIED, ',buried')):
+        obs.append(Obligation('O13-pipeline-end-state[%s%s%s]' % (name, ',%d->%dA' % twin if twin else '', ptag), mk_end_state(name, twin, params),
+                              code=['propka/run.py:single (whole pipeline)', D + 'set_determinants', D + 'set_backbone_determinants', 'propka/iterative.py:add_determinants',
+                                    'propka/coupled_groups.py:NonCovalentlyCoupledGroups.identify_non_covalently_coupled_groups'],
+                              bounds='micro-structure %s%s%s under a symbolic grid shift t in [0,2.509]' % (name, ' with residue %d renumbered %dA (insertion-coded twin)' % twin if twin else '', ' with Nmin/Nmax lowered to 6/30 so that burial, Coulomb and iterative paths are active' if params else ''),
+                              claim_doc='every finally recorded determinant obeys the sign rules and bounds, in every conformation', max_paths=5000, wall_s=170))
     obs.append(Obligation('O12-angle-factor', o_angle_factor, code=[E + 'angle_distance_factors'],
                           bounds='two neighbour atoms in [-5,5]^3 around the hydrogen at the origin', query_timeout_ms=60000,
                           claim_doc='|f_angle| <= 1 (Cauchy-Schwarz)', tiers=('thorough',), wall_s=400))
